@@ -1065,6 +1065,62 @@ func reportedDistanceVerbatim(w *load.World, c *core.Collector) {
 	}
 }
 
+// floatExit: a block of the natural loop of hdr that leaves the loop on something other than the
+// loop's own counting (a branch on integers — the index against its bound, also at the bottom of
+// a rotated loop) or an error: a branch on a floating-point value, or no branch at all.
+func floatExit(f *ssa.Function, hdr *ssa.BasicBlock) *ssa.BasicBlock {
+	in := map[*ssa.BasicBlock]bool{}
+	var stack []*ssa.BasicBlock
+	for _, p := range hdr.Preds {
+		if hdr.Dominates(p) && p != hdr && !in[p] {
+			in[p] = true
+			stack = append(stack, p)
+		}
+	}
+	for len(stack) > 0 {
+		b := stack[len(stack)-1]
+		stack = stack[:len(stack)-1]
+		for _, p := range b.Preds {
+			if p != hdr && !in[p] && hdr.Dominates(p) {
+				in[p] = true
+				stack = append(stack, p)
+			}
+		}
+	}
+	in[hdr] = true
+	var blocks []*ssa.BasicBlock
+	for b := range in {
+		blocks = append(blocks, b)
+	}
+	sort.Slice(blocks, func(i, j int) bool { return blocks[i].Index < blocks[j].Index })
+	for _, b := range blocks {
+		for _, s := range b.Succs {
+			if in[s] {
+				continue
+			}
+			if ret, ok := s.Instrs[len(s.Instrs)-1].(*ssa.Return); ok && len(ret.Results) > 0 && nonNilError(ssax.ReturnOperand(ret, len(ret.Results)-1), s) {
+				continue
+			}
+			ifi, ok := b.Instrs[len(b.Instrs)-1].(*ssa.If)
+			if !ok {
+				return b
+			}
+			cond := ifi.Cond
+			if un, ok := cond.(*ssa.UnOp); ok && un.Op == token.NOT {
+				cond = un.X
+			}
+			bo, ok := cond.(*ssa.BinOp)
+			if !ok {
+				return b
+			}
+			if bt, ok := bo.X.Type().Underlying().(*types.Basic); !ok || bt.Info()&types.IsInteger == 0 {
+				return b
+			}
+		}
+	}
+	return nil
+}
+
 // argminComplete: a loop that keeps a running minimum of distances (the nearest centroid of a
 // sub-vector) looks at every candidate: it has no way out before the end other than an error. "A
 // distance of 0 cannot be beaten" holds for euclidean; under the dot metric distances are negative.
@@ -1114,7 +1170,7 @@ func argminComplete(w *load.World, c *core.Collector) {
 				done[phi.Block()] = true
 				n++
 				key := fmt.Sprintf("argmin-complete:%s#%d", load.FnKey(f), n)
-				if ex := loopOtherExit(f, phi.Block()); ex != nil {
+				if ex := floatExit(f, phi.Block()); ex != nil {
 					c.Add("COVERAGE", key, core.Violation, w.At(ex.Instrs[len(ex.Instrs)-1]), "the loop that keeps the smallest distance can be left before the last candidate: whatever stops it early (\"a distance of 0 cannot be beaten\") is wrong for a metric whose distances are negative (dot), and the wrong centroid is stored", props...)
 				} else {
 					c.Add("COVERAGE", key, core.OK, w.Position(phi.Pos()), "", props...)
@@ -1194,12 +1250,37 @@ func foldsBehindFlag(w *load.World, c *core.Collector) {
 			}
 			return false
 		}
-		sites := staticCallSites(w, f)
-		if len(sites) == 0 {
+		type place struct {
+			fn *ssa.Function
+			b  *ssa.BasicBlock
+		}
+		var places []place
+		for _, s := range staticCallSites(w, f) {
+			places = append(places, place{s.Parent(), s.Block()})
+		}
+		// a named function handed on as a value ("Transform(ctx, in, lowerCaseChange)")
+		for _, g := range w.Fns {
+			if load.PkgPath(g) != load.PkgPath(f) {
+				continue
+			}
+			for _, gb := range g.Blocks {
+				for _, gi := range gb.Instrs {
+					if ci, ok := gi.(ssa.CallInstruction); ok && ci.Common().StaticCallee() == f {
+						continue
+					}
+					for _, op := range gi.Operands(nil) {
+						if *op == ssa.Value(f) {
+							places = append(places, place{g, gb})
+						}
+					}
+				}
+			}
+		}
+		if len(places) == 0 {
 			return false
 		}
-		for _, s := range sites {
-			if !siteOK(s.Parent(), s.Block(), depth+1) {
+		for _, pl := range places {
+			if !siteOK(pl.fn, pl.b, depth+1) {
 				return false
 			}
 		}
@@ -1514,7 +1595,30 @@ func pqTableFromMetric(w *load.World, c *core.Collector) {
 		if load.PkgPath(f) != load.Mod+"/shard/vectorstore" || f.Synthetic != "" || f.Name() != "DistanceFromFloat" || f.Signature.Recv() == nil || !strings.HasSuffix(ssax.TypeName(f.Signature.Recv().Type()), "productQuantizer") {
 			continue
 		}
-		for _, g := range append([]*ssa.Function{f}, f.AnonFuncs...) {
+		// the function, its literals, and the helpers of the package they call (the table may be
+		// filled by a method of its own)
+		scope := []*ssa.Function{}
+		seenFn := map[*ssa.Function]bool{}
+		var collect func(g *ssa.Function, depth int)
+		collect = func(g *ssa.Function, depth int) {
+			if g == nil || seenFn[g] || depth > 2 || len(g.Blocks) == 0 {
+				return
+			}
+			seenFn[g] = true
+			scope = append(scope, g)
+			for _, a := range g.AnonFuncs {
+				collect(a, depth)
+			}
+			for _, gb := range g.Blocks {
+				for _, gi := range gb.Instrs {
+					if h := ssax.StaticModuleCallee(gi); h != nil && load.PkgPath(h) == load.PkgPath(f) {
+						collect(h, depth+1)
+					}
+				}
+			}
+		}
+		collect(f, 0)
+		for _, g := range scope {
 			for _, b := range g.Blocks {
 				for _, in := range b.Instrs {
 					s, ok := in.(*ssa.Store)
@@ -1526,6 +1630,13 @@ func pqTableFromMetric(w *load.World, c *core.Collector) {
 						continue
 					}
 					base := ia.X
+					for i := 0; i < 3; i++ {
+						if sl, isSl := base.(*ssa.Slice); isSl {
+							base = sl.X // a row of the table
+							continue
+						}
+						break
+					}
 					if ld, isLd := base.(*ssa.UnOp); isLd && ld.Op == token.MUL {
 						if al, isAl := ld.X.(*ssa.Alloc); isAl {
 							if sv := ssax.SingleStore(al); sv != nil {
